@@ -186,6 +186,28 @@ func c15Values(tier string) (V []Operand, W []Operand) {
 			}
 		}
 	}
+	// long coefficients against short ones with the same digit-count + exponent sum (the case where Cmp must
+	// align the coefficients): every EDGE coefficient C against its own leading 1-3 digits +-1, scaled to C's length
+	for _, C := range EdgeCoefs() {
+		ds := C.String()
+		if len(ds) < 8 {
+			continue
+		}
+		for _, base := range []int32{0, -7} {
+			V = append(V, FinBig(C, base, false), FinBig(C, base, true))
+			for k := 1; k <= 3; k++ {
+				lead, _ := new(big.Int).SetString(ds[:k], 10)
+				for _, dl := range []int64{-1, 0, 1} {
+					c := new(big.Int).Add(lead, big.NewInt(dl))
+					if c.Sign() <= 0 {
+						continue
+					}
+					ex := base + int32(len(ds)-ref.NDig(c))
+					V = append(V, FinBig(c, ex, false), FinBig(c, ex, true))
+				}
+			}
+		}
+	}
 	// LIMIT: gaps up to the package limit
 	V = append(V, limitOperands()...)
 	// W: the triple alphabet
